@@ -9,9 +9,16 @@ ID_DOT = re.compile(r'"0x[0-9a-f]+"')
 ID_MER = re.compile(r'N\d+')
 
 
+# runs of the two escaped characters (an escaper must treat every character on its own: `\\"` is a backslash and a quote,
+# not "an already escaped quote")
+ESC_RUNS = ['\\"', '\\\\', '"\\', 'a\\"b', '\\\\"', '""', 'x\\\\y', '\\"\\"', 'C:\\"tmp"\\']
+
+
 def rand_name(rng, collide=False):
     if collide and rng.random() < 0.5:
         return rng.choice(["same", 'q"q'])
+    if rng.random() < 0.12:
+        return rng.choice(ESC_RUNS)
     return "".join(rng.choice(NAME_ALPHABET) for _ in range(rng.randrange(0, 5)))
 
 
@@ -65,7 +72,7 @@ def make_case(rng, kind, t, start=None, exhaustive=None):
          "maxlevel": m, "options": rng.choice([None, None, [], ["rankdir=LR;", "node [shape=box];"]]),
          "indent": rng.choice([None, None, 0, 2, 7]), "iterations": rng.choice([1, 2]), "custom": custom,
          "graph": rng.choice([None, None, "graph"]), "gname": rng.choice([None, None, "G1"]),
-         "defaults": rng.random() < 0.3, "tofile": rng.random() < 0.1, "cls": rng.choice(["plain", "plain", "eq"]),
+         "defaults": rng.random() < 0.3, "tofile": rng.random() < 0.1, "cls": rng.choice(["plain", "plain", "eq", "light", "falsy"]),
          "partial": rng.choice([0, 0, 0, 1, 2, 3])}
     return c
 
